@@ -313,16 +313,19 @@ PROPS["C10"] = _tx("C10", ["C10_cancel_effect", "C10_no_file_after_cancel", "C10
 
 PROPS["C17"] = _tx("C17", ["C17_limit_after_reset", "C17_limit_after_restart", "C17_count", "C17_paused_frozen",
                            "C17_receiver_dispatch", "C17_sender_dispatch", "C17_no_inactivity_fault_before_limit",
-                           "C17_no_ack_fault_before_limit"], ["recv", "send"],
+                           "C17_no_ack_fault_before_limit", "C17_sender_expiry_marks_eof", "C17_sender_no_expiry_quiet",
+                           "C17_sender_one_eof_per_mark", "C17_receiver_expiry_marks_finished",
+                           "C17_receiver_one_finished_per_mark"], ["recv", "send"],
     "Proof: closed form of the Counter (count = min(max, elapsed/timeout)), the limit is reached exactly at "
     "t0 + max*timeout after a reset and after (max-count) further periods after a restart, paused timers never move; "
     "the fault-handler dispatch of both machines (action = configured one, default cancel; ignore leaves phase/state/"
     "timers untouched, suspend suspends, abandon terminates at once); no inactivity / positive-ACK fault before the "
-    "limit. Tied to timer.rs / recv.rs / send.rs by lock-step scripts whose time advances land just before, on and "
+    "limit; one EOF (sender) / Finished (receiver) retransmission per ACK-timer expiration below the limit. Tied to timer.rs / recv.rs / send.rs by lock-step scripts whose time advances land just before, on and "
     "after each deadline.",
-    " The exact emission schedule 'one retransmission per earlier expiration' follows from the timer theorems plus the "
-    "model's handle_timeout (flag set once per expiry) and is exercised by the lock-step scripts; it is not stated as a "
-    "separate closed-loop theorem. Counter::update's while loop is modelled by its closed form (timeout > 0).")
+    " The emission schedule is stated per event (an ACK-timer expiration below the limit marks the EOF / Finished PDU and declares "
+    "nothing; the send arm emits exactly the marked PDU once and clears the mark; no expiration, no mark); the closed-loop "
+    "sentence 'k expirations, k retransmissions' over a whole idle run is not a separate theorem (exercised by the lock-step "
+    "scripts), nor is the NAK retransmission schedule of the receiver. Counter::update's while loop is modelled by its closed form (timeout > 0).")
 PROPS["C19"] = _tx("C19", ["C19_receiver_silent", "C19_sender_silent", "C19_paused_timers_do_not_count", "C19_sender_resume_fresh"], ["recv", "send"],
     "Proof for both machines: in a suspended state the send arm and the timeout arm of the loop are disabled for any "
     "suspension length, and no operation whatsoever (received PDUs included) emits a PDU or declares a timer-limit "
